@@ -25,6 +25,10 @@ FRAME = r'''
 // ------------------------------------------------------------------------------------------------
 // game-level types (struct projection D5: only the fields the serializer reads)
 //@struct src/frame/mod.rs PortOccupancy
+// src/frame/mod.rs: the first frame id (not used by the code under contract today; present so that a body that starts using it stays decidable)
+pub mod frame {
+//@const src/frame/mod.rs FIRST_INDEX
+}
 pub mod game {
 	use vstd::prelude::*;
 	use super::{slippi, Version, PortOccupancy};
